@@ -107,7 +107,7 @@ def with_waits(rng, ev, head):
     for e in ev[head:]:
         out.append(e)
         if rng.random() < 0.45:
-            out.append(ev_wait(rng.choice([1000, 4000, 7000, 10000, 10000, 13000, 21000])))
+            out.append(ev_wait(rng.choice([1000, 4000, 7000, 10000, 10000, 13000, 21000, 9998, 9999])))
     for _ in range(rng.choice([2, 3, 4])):
         out.append(ev_wait(rng.choice([10000, 10000, 15000])))
     return out
